@@ -38,6 +38,17 @@ def gen(chk, tier):
     for scheme in (-1, 0, 1, 2, 3):
         ks = list(special) + [rng.getrandbits(256) for _ in range(8 if q else 300)]
         ks += window_scalars(rng, 2 if scheme < 0 else scheme, tier)
+        # scalars in [n, 2^256): any reduction of the scalar happens only there (2^-32 of all scalars)
+        nb = b32(N)
+        for _ in range(12 if q else 200):
+            v = rng.randrange(N, T256)
+            ks.append(v)
+            vb = list(v.to_bytes(32, "big"))          # agree with n on some bytes, to provoke borrow chains
+            for i in rng.sample(range(32), rng.randrange(1, 12)):
+                vb[i] = nb[i]
+            v2 = int.from_bytes(bytes(vb), "big")
+            if v2 >= N:
+                ks.append(v2)
         for k in ks:
             g.one("base_scheme_%s" % ("public" if scheme < 0 else "_".join(map(str, SCHEMES[scheme]))), "sm.base",
                   scheme=scheme, k=b32(k))
